@@ -233,6 +233,22 @@ def expand(task):
             dr = den(rf)
             if dr is None:
                 continue
+            # augmented assignment on an accumulator obtained through the identity shortcuts (x*1, x+0, +x may return x itself):
+            # the accumulated value is right and neither operand object changes
+            for iname, start in (('iadd-after-mul1', lambda o: o * 1), ('iadd-after-add0', lambda o: o + 0), ('iadd-after-pos', lambda o: +o)):
+                res.transitions += 1
+                case = {'op': iname, 'left': lf, 'right': rf}
+                try:
+                    a_obj, b_obj = build(lf), build(rf)
+                    acc = start(a_obj)
+                    acc += b_obj
+                    acc += b_obj
+                    want = dl + dr + dr
+                    f_acc = check_result(res, iname, (lf, rf), acc, want, case)
+                    if form(a_obj) != lf or form(b_obj) != rf:
+                        res.violate(violation(f'{iname}:operand-mutated', f'{iname}: after acc = start(a); acc += b the operand objects changed', case, str((lf, rf))[:300], str((form(a_obj), form(b_obj)))[:300]))
+                except Exception as e:
+                    res.violate(violation(f'{iname}:raises', f'{iname}({lf}, {rf}) raises {type(e).__name__}: {e}', case, '', repr(e)))
             for name, op, rop in binary_ops(cls):
                 for a, b, da, db in ((lf, rf, dl, dr), (rf, lf, dr, dl)):
                     res.transitions += 1
@@ -259,10 +275,32 @@ def expand(task):
     return d
 
 
+def big_atoms():
+    """Exact integers that nearly cancel relative to their size (beyond 2**53: only combined with integer-coefficient states)."""
+    from kingdon.polynomial import Polynomial, RationalPolynomial
+    objs = [Polynomial([[10 ** 16 + 1, 'x']]), Polynomial([[10 ** 16, 'x']]), Polynomial([[10 ** 16 + 1, 'x', 'y'], [3, 'z']]), Polynomial([[10 ** 16, 'x', 'y']]),
+            RationalPolynomial([[10 ** 16 + 1, 'x']]), RationalPolynomial([[10 ** 16, 'x']]), RationalPolynomial([[10 ** 16 + 1, 'x']], [[1, 'y']]), RationalPolynomial([[10 ** 16, 'x']], [[1, 'y']])]
+    return [form(o) for o in objs]
+
+
+def _coeffs(f):
+    if f[0] == 'P':
+        return [m[0] for m in f[1]]
+    return _coeffs(f[1]) + _coeffs(f[2])
+
+
+def integral(f):
+    return all(isinstance(c, int) or (isinstance(c, float) and c.is_integer() and abs(c) < 2 ** 53) for c in _coeffs(f))
+
+
+BIG = set()
+
+
 def cancel_check(task):
     """Sums and differences of all pairs of already reached states: cancellation of like terms is what the exact zero tests
     (and therefore the simplification in code generation) rest on."""
     lefts, rights = task
+    BIG.update(big_atoms())
     res = Result()
     dr = {f: den(f) for f in rights}
     objs = {f: build(f) for f in rights}
@@ -274,6 +312,8 @@ def cancel_check(task):
         for rf in rights:
             if rf[0] != lf[0] or dr[rf] is None:
                 continue
+            if (lf in BIG or rf in BIG) and not (integral(lf) and integral(rf)):
+                continue          # floats cannot be exact next to 17-digit integers
             for name, op, want in (('sub', lambda x, y: x - y, dl - dr[rf]), ('add', lambda x, y: x + y, dl + dr[rf])):
                 res.transitions += 1
                 case = {'op': name, 'left': lf, 'right': rf}
@@ -372,8 +412,8 @@ def drive(ctx):
                 ctx.capped.append(f'level 4 expands the first {cap} of {len(levels[3])} level-3 states')
             levels[4] = run_level(l3, four, 'binary', 4)
     # cancellation: u - v and u + v for all pairs of level <= 2 states of one class
-    cp = [f for f in l12 if f[0] == 'P'][:(400 if tier == 'quick' else 1500)]
-    cr = [f for f in l12 if f[0] == 'RP'][:(250 if tier == 'quick' else 700)]
+    cp = [f for f in l12 if f[0] == 'P'][:(400 if tier == 'quick' else 1500)] + [f for f in big_atoms() if f[0] == 'P']
+    cr = [f for f in l12 if f[0] == 'RP'][:(250 if tier == 'quick' else 700)] + [f for f in big_atoms() if f[0] == 'RP']
     for group in (cp, cr):
         for out in ctx.map('cancel_check', [(ch, group) for ch in chunks(group, 48) if ch]):
             agg['extra']['cancellation_pairs'] = agg['extra'].get('cancellation_pairs', 0) + out['transitions']
